@@ -13,7 +13,7 @@ func newClusterView() *ClusterView {
 	return &ClusterView{
 		ViewID:          uuid.New().String(),
 		Epoch:           0,
-		Timestamp:       time.Now().UnixNano(),
+		Timestamp:       wallNow().UnixNano(),
 		Members:         make(map[string]*NodeState),
 		HealthyCount:    0,
 		UnhealthyCount:  0,
